@@ -236,13 +236,28 @@ def check_case(case):
             raise AssertionError("subpath(1) * M has %d segments, expected 2" % len(segs))
         return segs[1]
 
+    def r_path_matmul():    # path @ M : the copying operator that also reifies
+        p = path_of()
+        for m in ms:
+            q = p @ m
+            if q is p:
+                raise AssertionError("@ returned its operand")
+            p = q
+        return p[1]
+
+    def r_path_imatmul():   # path @= M
+        p = path_of()
+        for m in ms:
+            p @= m
+        return p[1]
+
     def r_string():       # X * "matrix(...)"
         x = build(obj)
         for M in hist:
             x = x * ("matrix(%s)" % ",".join(repr(float(rat(v))) for v in M))
         return x
     for name, fn in (("seg * M", r_mul), ("seg *= M", r_imul), ("seg * (A*B)", r_product), ("abs(path * M)[1]", r_path_abs),
-                     ("path *= M; reify", r_path_reify), ("subpath *= M", r_subpath), ("subpath(1) * M", r_subpath_copy), ("seg * 'matrix(..)'", r_string),
+                     ("path *= M; reify", r_path_reify), ("subpath *= M", r_subpath), ("subpath(1) * M", r_subpath_copy), ("path @ M", r_path_matmul), ("path @= M", r_path_imatmul), ("seg * 'matrix(..)'", r_string),
                      ("incremental path *= M; reify", r_incremental), ("(path + path) *= M; reify", r_joined)):
         try:
             s = fn()
